@@ -85,4 +85,34 @@ pub fn run(ctx: &Ctx) {
             },
         ));
     }
+    // contiguous ranges: every input, no alphabet
+    for (unit, per) in [("ms", 1000u64), ("us", 1_000_000u64)] {
+        let low: u64 = match (ctx.tier, unit) {
+            (Tier::Quick, "ms") => 1 << 30,
+            (Tier::Quick, _) => (1 << 32) + (1 << 22),
+            (Tier::Thorough, "ms") => 1 << 35,
+            (Tier::Thorough, _) => 1 << 36,
+        };
+        ctx.run_family(Family::new(format!("c17.from_{}.low_range", unit), low, format!("EVERY input 0..{} (contiguous; covers the whole range in which 32-bit intermediate arithmetic could be used and every carry into the seconds up to {} s)", low, low / per), move |idx, loc| judge(unit, idx, loc)).distinct());
+        let max = (u32::MAX as u64) * per + (per - 1);
+        let high: u64 = ctx.tier.pick(1 << 24, 1 << 28);
+        ctx.run_family(Family::new(format!("c17.from_{}.high_range", unit), high, format!("EVERY input in the last {} values of the legal domain (up to {} = (2^32-1) s + the largest sub-second part)", high, max), move |idx, loc| judge(unit, max - idx, loc)).distinct());
+        // around every whole second of the first 2^32 / per seconds and around powers of two of the input
+        let secs: u64 = ctx.tier.pick(70_000u64, 4_300_000u64).min(u32::MAX as u64);
+        let win: u64 = 24;
+        ctx.run_family(Family::new(format!("c17.from_{}.second_ends", unit), secs * 2 * win, format!("for every whole second 1..={}: the {} inputs before and after the second boundary", secs, win), move |idx, loc| {
+            let s = idx / (2 * win) + 1;
+            let d = idx % (2 * win);
+            judge(unit, s * per - win + d, loc);
+        }).distinct());
+        ctx.run_family(Family::new(format!("c17.from_{}.bit_boundaries", unit), 64 * 2 * 4096, "for every power of two 2^k of the input (k < 64) inside the legal domain: the 4096 inputs before and after it".to_string(), move |idx, loc| {
+            let k = idx / 8192;
+            let d = idx % 8192;
+            let base = 1u128 << k;
+            let v = base + d as u128;
+            if v >= 4096 && v - 4096 <= max as u128 {
+                judge(unit, (v - 4096) as u64, loc);
+            }
+        }).distinct());
+    }
 }
